@@ -471,7 +471,41 @@ class ADD(ArithmeticInstruction):
         return il.add(self.width(), il_arg1, il_arg2, CZFlag)
 
 
+def _lift_with_carry_in(
+    instr: "ArithmeticInstruction", il: LowLevelILFunction, addr: int
+) -> None:
+    """Lift ADC/SBC so that the carry/borrow out is right for every carry in.
+
+    The operation is lifted as ``a +/- (b + C)`` and the inner sum is truncated to
+    the operand width: with ``b`` all ones and ``C`` set it wraps to zero, the outer
+    operation sees ``a +/- 0`` and reports no carry/borrow although one is due (the
+    result itself is right).  Remember that case and fold it into C afterwards.
+    """
+    _dst_mode, src_mode = instr._addressing_modes()
+    _dst, src = instr.operands()
+    width = instr.width()
+    all_ones = (1 << (8 * width)) - 1
+    wrapped = TempReg(TempMultiByte1, width=1)
+    wrapped.lift_assign(
+        il,
+        il.and_expr(
+            1,
+            il.flag(CFlag),
+            il.compare_equal(
+                width,
+                src.lift(il, src_mode, side_effects=False),
+                il.const(width, all_ones),
+            ),
+        ),
+    )
+    ArithmeticInstruction.lift(instr, il, addr)
+    il.append(il.set_flag(CFlag, il.or_expr(1, il.flag(CFlag), wrapped.lift(il))))
+
+
 class ADC(ArithmeticInstruction):
+    def lift(self, il: LowLevelILFunction, addr: int) -> None:
+        _lift_with_carry_in(self, il, addr)
+
     def lift_operation2(
         self, il: LowLevelILFunction, il_arg1: ExpressionIndex, il_arg2: ExpressionIndex
     ) -> ExpressionIndex:
@@ -493,6 +527,9 @@ class SUB(ArithmeticInstruction):
 
 
 class SBC(ArithmeticInstruction):
+    def lift(self, il: LowLevelILFunction, addr: int) -> None:
+        _lift_with_carry_in(self, il, addr)
+
     def lift_operation2(
         self, il: LowLevelILFunction, il_arg1: ExpressionIndex, il_arg2: ExpressionIndex
     ) -> ExpressionIndex:
